@@ -192,7 +192,7 @@ def check_case(case) -> Result:
     for tag, pick in (("occupation", lambda a: a[good]), ("correlation_matrix", lambda a: a[np.ix_(good, good)]), ("energy", lambda a: a)):
         for t, a, b in zip(full.get_result_times(tag), getattr(full, tag), getattr(red, tag)):
             a, b = pick(e2e.to_np(a)), e2e.to_np(b)
-            sc = 1.0 if tag != "energy" else 1.0 + 25.0 * n
+            sc = 1.0 if tag != "energy" else max(1.0 + 25.0 * n, float(np.max(np.abs(b))))
             err = float(np.max(np.abs(a - b))) / sc
             if not err <= tol:
                 r.fail(f"good_atoms_differ_from_reduced_register:{tag}:{backend}" + (":reordered" if (backend == "mps" and case["reorder"]) else ""),
